@@ -534,6 +534,30 @@ func (sc *ServerConn) WriteReply(req *Req, frame []byte) error {
 	return err
 }
 
+// WriteReplySplit writes the answer in two pieces with a pause in between (a response that arrives with a gap in
+// the middle of its body); nothing else is written on the connection in between.
+func (sc *ServerConn) WriteReplySplit(req *Req, frame []byte, cut int, pause time.Duration) error {
+	if !atomic.CompareAndSwapInt32(&req.replied, 0, 1) {
+		return errors.New("already replied")
+	}
+	if cut < 0 || cut > len(frame) {
+		cut = len(frame)
+	}
+	sc.wmu.Lock()
+	defer sc.wmu.Unlock()
+	sc.mu.Lock()
+	if cur := sc.outstanding[req.Header.Stream]; cur == req {
+		delete(sc.outstanding, req.Header.Stream)
+	}
+	sc.mu.Unlock()
+	if _, err := sc.C.Write(frame[:cut]); err != nil {
+		return err
+	}
+	time.Sleep(pause)
+	_, err := sc.C.Write(frame[cut:])
+	return err
+}
+
 // Forget marks the request as one the node will never answer (keeps it outstanding).
 func (sc *ServerConn) Forget(req *Req) {}
 
